@@ -153,6 +153,11 @@ func (x *Exec) valueInstr(st *State, b *ssa.BasicBlock, i int, ins ssa.Value, k 
 			// assertion to an interface the static type already satisfies: fails only for nil
 			okT = not(eq(ut, "nil"))
 		}
+		if v.Src == "elem" {
+			// element of a sync.Map seen through Range: its type is the map's element invariant, checked at Store sites
+			st.assume(okT)
+			return res, false
+		}
 		x.obl(st, "nopanic/typeassert", okT, "type assertion without ok", ins.Pos())
 		st.assume(okT)
 		return res, false
@@ -282,9 +287,9 @@ func (x *Exec) toU(st *State, v SVal, t types.Type) SVal {
 	case KU:
 		return v
 	case KInt:
-		return SVal{K: KU, T: x.D.app("box!"+typeShort(t), []string{v.T}, []string{"Int"}, "U"), GoT: t}
+		return SVal{K: KU, T: x.D.app("box!int", []string{v.T}, []string{"Int"}, "U"), GoT: t}
 	case KBool:
-		return SVal{K: KU, T: x.D.app("box!"+typeShort(t), []string{v.T}, []string{"Bool"}, "U"), GoT: t}
+		return SVal{K: KU, T: x.D.app("box!bool", []string{v.T}, []string{"Bool"}, "U"), GoT: t}
 	case KStruct:
 		v.GoT = t
 		u := x.termOf(st, v)
